@@ -198,6 +198,8 @@ def _race(smt2, z3_timeout_s, cvc5_timeout_s):
         procs["cvc5-1.0.3"] = subprocess.Popen([CVC5_BIN, "--strings-exp", f"--tlimit={cvc5_timeout_s * 1000}", p_cvc], stdout=subprocess.PIPE, stderr=subprocess.DEVNULL, text=True)
         if "String" in smt2:
             procs["z3-4.8.12"] = subprocess.Popen([Z3_OLD_BIN, f"-T:{cvc5_timeout_s}", p_z3], stdout=subprocess.PIPE, stderr=subprocess.DEVNULL, text=True)
+            # enumerative instantiation: decides string queries whose proof needs an instance built from a term that does not occur yet (cvc5's default gives up at once)
+            procs["cvc5-1.0.3-enum-inst"] = subprocess.Popen([CVC5_BIN, "--strings-exp", "--enum-inst", f"--tlimit={cvc5_timeout_s * 1000}", p_cvc], stdout=subprocess.PIPE, stderr=subprocess.DEVNULL, text=True)
     except FileNotFoundError:
         pass
     detail, final = {}, "unknown"
